@@ -14,34 +14,10 @@ which the full property is proved, and `Variant.pinned` (only "" is refused) for
 is proved with a concrete witness, plus the partial theorem under the hypothesis the proof forces.
 -/
 import SemaModel.C16.Lemmas
-import SemaModel.Generated.FactsC16
 namespace Sema.C16
 open Sema
 
-/-! ### T2 pins: the constants and concatenation shapes the model is written against -/
-
-example : Gen.FactsC16.dbDelimiter = "/" := by decide
-example : Gen.FactsC16.userColsDir = "userCollections" := by decide
-/-- every node-db key in cluster/rpchandlers.go is `user + DBDELIMITER + collection`, every scan
-prefix is `user + DBDELIMITER` -/
-example : Gen.FactsC16.keyShapes = ["U+D x2", "U+D+C x4"] := by decide
-/-- every path below USERCOLSDIR is `Join(root, USERCOLSDIR, user, collection[, shard[, file]])` -/
-example : Gen.FactsC16.joinShapes = ["ROOT,DIR", "ROOT,DIR,U,C", "ROOT,DIR,U,C,S", "ROOT,DIR,U,C,S,\"sharddb.bbolt\""] := by decide
-example : (Gen.FactsC16.v2IdMin, Gen.FactsC16.v2IdMax, Gen.FactsC16.v2IdRanges) = (3, 24, [(48, 57), (97, 122)]) := by decide
-example : (Gen.FactsC16.v1IdMin, Gen.FactsC16.v1IdMax, Gen.FactsC16.v1IdRanges) = (3, 16, [(48, 57), (65, 90), (97, 122)]) := by decide
-example : (Gen.FactsC16.v2UriMin, Gen.FactsC16.v2UriMax) = (3, 24) := by decide
-/-- all the state that requests share inside a node: the node database and the shard manager (the
-model's `Node.db` / `Node.fs`), the configuration, the RPC client cache (keyed by server name) and
-metrics.  The model has no other channel between two requests; a new field is a new channel. -/
-example : Gen.FactsC16.nodeFields =
-    ["logger zerolog.Logger", "cfg ClusterNodeConfig", "Servers []string", "MyHostname string", "rpcClients map[string]*rpc.Client",
-     "rpcClientsMu sync.Mutex", "metrics *clusterNodeMetrics", "nodedb diskstore.DiskStore", "shardManager *ShardManager",
-     "doneCh chan struct{}", "bgWaitGroup sync.WaitGroup"] := by decide
-/-- the collection-level actions are pure routing: through their receiver they reach the server list,
-their own name and the RPC handler of the same name — no state of the node (`lookup` below is one
-atomic read of the node database for exactly the key `user/collection`) -/
-example : Gen.FactsC16.actionUses =
-    ["CreateCollection: MyHostname,RPCCreateCollection,Servers", "ListCollections: MyHostname,RPCListCollections,Servers", "GetCollection: MyHostname,RPCGetCollection,Servers", "DeleteCollection: MyHostname,RPCDeleteCollection,RPCDeleteCollectionShards,Servers"] := by decide
+/-! ### T2 pins (`Generated/FactsC16.lean`): see `Pins.lean`, a module of its own built by C16's check only -/
 
 /-- "userCollections" as bytes -/
 def userColsDirBytes : Bytes :=
